@@ -23,7 +23,7 @@ SPEC = {
     ],
     "bounds": {
         "quick": {"dim": "1-2", "modes": "2 (Fourier: 2 per axis)", "points": "<=3 symbolic", "histories": "<=2 operations before the final call, every operation with symbolic values"},
-        "thorough": {"histories": "<=3 operations", "dim": "1-2 (+3 for locality)"},
+        "thorough": {"histories": "<=3 operations; 4 operations over the core operations in 1-D (RandMeth, Fourier)", "dim": "1-2 (+3 for locality)"},
     },
     "stubs": [
         "random numbers: fresh symbols named by (seed VALUE, sub-stream index, draw index): numpy's RandomState contract (a stream is a function of the seed value and the draws made so far); nothing assumed about their law",
@@ -373,6 +373,8 @@ def jobs(tier, seed):
             if tier == "thorough" and dim == 1:
                 core_ops = [o for o in ops if o in ("call_seedB", "call_noseed", "var", "mode_no", "seed_setter", "period")]
                 seqs += list(itertools.product(core_ops, repeat=3))
+                if gen != "IncomprRandMeth":
+                    seqs += [s_ for s_ in itertools.product([o for o in core_ops if o != "call_noseed"], repeat=4) if len(set(s_)) >= 3]
             if tier == "quick" and dim == 2:
                 # 2-D quick: single operations and pairs that involve the geometric parameters
                 seqs = [(o,) for o in ops] + [s for s in itertools.product(ops, repeat=2) if ("anis" in s or "angles" in s or "period" in s)]
